@@ -6,7 +6,8 @@
 (* uniformly random shapes and its breadth-first mode enumerates them all):               *)
 (*   page tree (flat / intermediate node), inheritable page attributes (Rotate, MediaBox, *)
 (*   Resources) placed on the page, the intermediate node or the root, content streams    *)
-(*   (filter, split, shared between pages, indirect /Length), a free object, and an extra *)
+(*   (filter, split, shared between pages, indirect /Length), a free object, the input's   *)
+(*   own layout (classic, or object stream + cross-reference stream), and an extra        *)
 (*   object graph under the catalog (shared, cyclic, self-referencing, stream, strings    *)
 (*   and names with delimiters, reference to a free object), then a writer configuration. *)
 (* Abs(sh) is the abstract document: what every page shows (inheritance resolved).        *)
@@ -27,11 +28,11 @@ VARIABLES pc, sh, phase
 vars == <<pc, sh, phase>>
 
 Dims == <<"np", "tree", "rootrot", "midrot", "midmedia", "pagerot", "pagemedia", "res",
-          "filter", "nstreams", "sharedcontent", "lenind", "free", "extra", "xsos", "eol", "enc">>
+          "filter", "nstreams", "sharedcontent", "lenind", "free", "inobjstm", "extra", "xsos", "eol", "enc", "mode">>
 
 Unset == [np |-> 0, tree |-> "", rootrot |-> -1, midrot |-> -1, midmedia |-> FALSE, pagerot |-> <<>>, pagemedia |-> <<>>,
-          res |-> "", filter |-> "", nstreams |-> 0, sharedcontent |-> FALSE, lenind |-> FALSE, free |-> FALSE, extra |-> "",
-          xsos |-> "", eol |-> "", enc |-> ""]
+          res |-> "", filter |-> "", nstreams |-> 0, sharedcontent |-> FALSE, lenind |-> FALSE, free |-> FALSE, inobjstm |-> FALSE, extra |-> "",
+          xsos |-> "", eol |-> "", enc |-> "", mode |-> ""]
 
 (* the values dimension d may take given the choices made so far *)
 Dom(d, s) ==
@@ -48,10 +49,12 @@ Dom(d, s) ==
     [] d = "sharedcontent" -> IF s.np > 1 THEN BOOLEAN ELSE {FALSE}
     [] d = "lenind"        -> BOOLEAN
     [] d = "free"          -> BOOLEAN
+    [] d = "inobjstm"      -> BOOLEAN                     \* the input keeps its non-stream objects in an object stream
     [] d = "extra"         -> Extras
     [] d = "xsos"          -> {"00", "10", "11"}          \* WriteXRefStream, WriteObjectStream
     [] d = "eol"           -> {"LF", "CR", "CRLF"}
     [] d = "enc"           -> Encs
+    [] d = "mode"          -> IF s.enc = "none" THEN {"plain", "api"} ELSE {"api"}   \* plain: read/validate/write; api: OptimizeFile / EncryptFile
 
 Init == pc = 1 /\ sh = Unset /\ phase = "build"
 
